@@ -417,6 +417,8 @@ def print_element(s: dict, sw: dict) -> Optional[str]:
                     return None
                 if sw["subform"] == "bare":
                     if t[0] == "S":
+                        if len(t) < 2 or t[1][0] != "L":
+                            return None  # a bare list must begin with an element ('(' would denote a parallel sub-circuit)
                         body = body[1:-1].strip() if not sw["ws"] else body.strip()[1:-1].strip()
                     elif t[0] == "P":
                         return None  # a bare list cannot spell a parallel root
